@@ -331,7 +331,25 @@ func Harness_C25_MsgKeyTamper() {
 	v := zzsym.U8("newbyte")
 	i := zzsym.Int("index")
 	zzsym.Assume(i >= 0)
-	switch zzsym.Choice("what", 6) {
+	switch zzsym.Choice("what", 7) {
+	case 6:
+		// the changed byte is given RELATIVE to the key's own bytes (xor mask at the first hex letter, or
+		// at the first digit), so that a model found over the abstract digest replays on the real MD5
+		// whatever its hex text is
+		letter := zzsym.Bool("atletter")
+		zzsym.Assume(v != 0)
+		pos := -1
+		for j := 0; j < len(key); j++ {
+			if (key[j] >= 'a') == letter {
+				pos = j
+				break
+			}
+		}
+		zzsym.Assume(pos >= 0)
+		b := []byte(key)
+		b[pos] ^= v
+		t.MsgKey = string(b)
+		zzsym.Reach("tamper-msgkey-relative")
 	case 0:
 		if len(pkt.Payload) == 0 {
 			return
